@@ -91,8 +91,8 @@ _MORE = {
     "C02": " Also: DisaggregatedResult.apply_grouping/difference/ratio for any number of groups (real and integer cells, one generic control-feature stratum) with a bounded native "
            "search on the real class after a refuted/undecided obligation.",
     "C03": " Also: the generated-metrics table, the four rates and their label helper, scalar shapes.",
-    "C04": " Also: the equalized-odds curve loop (caller's flip, default FPR/TPR metrics), state of an earlier fit is rebuilt, provenance type-state.",
-    "C05": " Also: the native search checks completeness (a '>' rule between any two different scores).",
+    "C04": " Also: the equalized-odds curve loop (caller's flip, default FPR/TPR metrics) and selection step (lowest hull, first maximiser of the overall objective), state of an earlier fit is rebuilt, provenance type-state.",
+    "C05": " Also: the equalized-odds selection step (first maximiser of accuracy / balanced accuracy on the pointwise-lowest hull); the native search checks completeness (a '>' rule between any two different scores).",
     "C06": " Also: the five load_data event constructions incl. control strata, gamma for (n,1) predictor output, SquareLoss/AbsoluteLoss.eval, ConditionalLossMoment.",
     "C07": " Also: ErrorRate / ConditionalLossMoment signed_weights (labels vs positions of the multiplier Series).",
     "C08": " Also: any requested nu >= 0; bounded native search (exact learner, ~650 runs) after a refuted/undecided obligation.",
